@@ -4,6 +4,7 @@ import (
 	"fmt"
 	"github.com/goghcrow/yae/types"
 	"github.com/goghcrow/yae/util"
+	"github.com/goghcrow/yae/verifhook"
 )
 
 // Env for compile and runtime
@@ -54,6 +55,7 @@ func (e *Env) ForEach(f func(string, *Val)) {
 }
 
 func (e *Env) RegisterFun(f *Val) {
+	verifhook.Touch(e, true, "val.Env.RegisterFun")
 	util.Assert(f.Type.Kind == types.KFun, "expect FunVal actual %s", f)
 	lookup, fk := f.Type.Fun().OverLoaded()
 	if fk == types.MonoFun {
